@@ -81,12 +81,21 @@ def handshake_companions(c, gen, cfg):
 
 # ------------------------------------------------------------------------------------------- stream
 def stream(c, tag, wsizes, rsizes, maxw, maxr, maxm, kinds=ALLKINDS, flipoffs="{0, 1043}", cutoffs="{1, 1043}",
-           inj='{"rev", "old", "junk"}', maxwire=3, stride=1):
+           inj='{"rev", "old", "junk"}', maxwire=3, stride=1, maxfaults=0, faultpass="{}", rfaultat="{}", reuse_violates=None):
+    """reuse_violates: run the model with ReuseNonce = TRUE (nonce consumed only by a successful underlying write) and
+    require TLC to violate that invariant (companion run, no replay)."""
     cfg = ("SPECIFICATION Spec\nCONSTANTS\n  WSizes = %s\n  RSizes = %s\n  MaxWrites = %d\n  MaxReads = %d\n  MaxManip = %d\n"
            "  Kinds = %s\n  FlipOffs <- FlipV\n  CutOffs <- CutV\n  InjKinds = %s\n  MaxWire = %d\n"
-           "VIEW View\nINVARIANT Inv\nPROPERTY TamperDetected\nACTION_CONSTRAINT Dump\n") % (
-        sset(wsizes), sset(rsizes), maxw, maxr, maxm, kinds, inj, maxwire)
+           "  MaxFaults = %d\n  FaultPass = %s\n  RFaultAt = %s\n  ReuseNonce = %s\n"
+           "VIEW View\nINVARIANT %s\n%s") % (
+        sset(wsizes), sset(rsizes), maxw, maxr, maxm, kinds, inj, maxwire, maxfaults, faultpass, rfaultat,
+        "TRUE" if reuse_violates else "FALSE", reuse_violates or "Inv",
+        "" if reuse_violates else "PROPERTY TamperDetected\nACTION_CONSTRAINT Dump\n")
     gen = "---- MODULE MCgen ----\nEXTENDS MC_Stream\nFlipV == %s\nCutV == %s\n====\n" % (flipoffs, cutoffs)
+    if reuse_violates:
+        r = c.tlc("conn", "MCgen.cfg", module="MCgen", files={"MCgen.tla": gen, "MCgen.cfg": cfg}, timeout=900,
+                  tag="MC_Stream %s, nonce reused after a failed write: %s" % (tag, reuse_violates))
+        return need_violation(c, r, "MC_Stream %s with ReuseNonce" % tag, reuse_violates)
     dump = os.path.join(c.scratch, "st-%s.dump" % tag)
     r = c.tlc("conn", "MCgen.cfg", module="MCgen", files={"MCgen.tla": gen, "MCgen.cfg": cfg}, dump_to=dump, timeout=1500,
               tag="MC_Stream " + tag)
@@ -220,7 +229,9 @@ def run(c):
               "wrong direction key, low-order point, noise) replayed on real MakeSecretConnection calls, outcome (peer key / failure) of "
               "every session compared, then a data frame exchanged with the keys the specification says each side holds; "
               "stream: every transition of MC_Stream that ends in a Read (Write/Read sizes from {0,1,1023,1024,1025,2049}, Close, "
-              "and Flip/Cut at every byte offset, Drop, Dup, Swap, Replay, Inject of reverse-direction/old-session/noise frames) replayed "
+              "and Flip/Cut at every byte offset, Drop, Dup, Swap, Replay, Inject of reverse-direction/old-session/noise frames, and faults of "
+              "the underlying connection -- a frame write reporting an error with all / part / none of its bytes out, a read failing "
+              "mid-frame -- after which the application keeps writing / reading) replayed "
               "on a real pair whose wire the driver owns: result and bytes of every Read compared; upgrade: every case of MC_Upgrade on the "
               "real transport upgrade; mconn: every quiescent behaviour of MC_MConn replayed on a real receiving MConnection (all packet "
               "interleavings) and on a real stepped sender + receiver (code's scheduling); plus TLC validation of traces of real concurrent "
@@ -252,6 +263,20 @@ def run(c):
     # a frame cut in two and put together again from a duplicate IS the genuine frame (SecretConn!Norm): three manipulations
     stream(c, "splice3", [1], [1], 2, 3, 3, kinds='{"dup", "cutt", "cuth"}', flipoffs="{0}", cutoffs="{522}" if not th else "{1, 522, 1043}",
            inj='{"junk"}', maxwire=3)
+    # faults of the underlying connection while the application keeps using the SecretConnection: a frame write that reports
+    # an error although all / a prefix / none of the 1044 bytes went out (the nonce is consumed all the same), a read that fails
+    # mid-frame; combined with the man in the middle dropping / duplicating / swapping / replaying frames
+    fk = '{"drop", "dup", "swap", "replay"}'
+    if not th:
+        stream(c, "faults", [1, 1025], [1, 2049], 3, 3, 1, kinds=fk, inj='{"junk"}', maxfaults=1, faultpass="{0, 522, 1044}", rfaultat="{0, 522}")
+    else:
+        stream(c, "faults", [1, 1025], [1, 2049], 3, 3, 1, kinds=fk, inj='{"junk"}', maxfaults=2, faultpass="{0, 1, 1043, 1044}",
+               rfaultat="{0, 1043}")
+    # the sender-side invariant is not vacuous: with the nonce consumed only by a successful write TLC finds both the reuse and
+    # the receiver silently skipping the data of the failed frame
+    for inv in ("NoNonceReuseInv", "PrefixInv"):
+        stream(c, "faults", [1, 1025], [1, 2049], 3, 3, 1, kinds=fk, inj='{"junk"}', maxfaults=1, faultpass="{0, 522, 1044}",
+               rfaultat="{0}", reuse_violates=inv)
     if th:
         stream(c, "manip2", [1, 1025], [1, 2049], 2, 4, 2, flipoffs="{0, 1043}", cutoffs="{1, 522, 1043}", maxwire=3)
         stream(c, "manip1-wide", full, [1, 1024, 2049], 2, 4, 1, flipoffs="{0, 4, 1028}", cutoffs="{4, 1043}", maxwire=4)
